@@ -352,6 +352,10 @@ class Ctx:
         self.sub_point = {}       # fid -> point submitted
         self.removed = False      # learner.remove_unfinished() was called: the runner is in its finally block
         self.done_at_stop = set() # futures that had already finished when the runner began to stop
+        self.executing = set()    # async_coro: evaluation coroutines that have started and not yet ended
+        self.releases = {}        # async_coro + slow_cancel: fid -> second gate awaited during cancellation
+        self.executing_at_done = None   # snapshot of `executing` at the moment the runner task is done
+        self.aux_tasks = []
         self.all_result_calls = set()
 
     # ---- interning of points and values (real learners have float points)
@@ -620,8 +624,22 @@ class Ctx:
             stray = []                                # the wait returns on the first cancelled one
         if stray:
             self.loop.call_soon(self.apply_async, "done", stray)
+        if self.spec.get("slow_cancel"):
+            self.aux_tasks.append(self.loop.create_task(self.releaser(fs)))
         done, pending = await real_asyncio.wait(fs, return_when=return_when)
         return done, pending
+
+    async def releaser(self, fs=()):
+        """Lets the asynchronous clean-up of cancelled evaluation coroutines finish -- a few loop
+        iterations later, i.e. while a runner that waits for them is suspended in asyncio.wait."""
+        for _ in range(60):
+            await real_asyncio.sleep(0)
+            await real_asyncio.sleep(0)
+            for r in list(self.releases.values()):
+                if not r.done():
+                    r.set_result(None)
+            if not self.executing or (fs and all(f.done() for f in fs)):
+                break
 
     def apply_async(self, kind, sel):
         # runs from the event loop while the runner task is suspended in asyncio.wait
@@ -649,11 +667,24 @@ class Ctx:
     def coro_function(self):
         ctx = self
 
-        async def gated(gate):
-            tag, v = await gate
-            if tag == "err":
-                raise v
-            return v
+        async def gated(fid, gate):
+            ctx.executing.add(fid)
+            try:
+                try:
+                    tag, v = await gate
+                except real_asyncio.CancelledError:
+                    if ctx.spec.get("slow_cancel"):
+                        # asynchronous clean-up on cancellation (legal for an async def function): the
+                        # evaluation is over only when the scheduler has released this second gate
+                        rel = ctx.loop.create_future()
+                        ctx.releases[fid] = rel
+                        await rel
+                    raise
+                if tag == "err":
+                    raise v
+                return v
+            finally:
+                ctx.executing.discard(fid)
 
         def function(x):
             n = ctx.attempts[ctx._k(x)] = ctx.attempts.get(ctx._k(x), 0) + 1
@@ -661,7 +692,7 @@ class Ctx:
             fid = len(ctx.gates)
             ctx.gates.append((gate, x, n))
             ctx.act(("submit", fid, x))
-            return gated(gate)
+            return gated(fid, gate)
 
         inspect.markcoroutinefunction(function)
         return function
@@ -761,8 +792,22 @@ def run_case(spec, sched) -> Rec:
                     runner = R.AsyncRunner(learner, goal=ctx.goal, executor=ex, ioloop=loop, **kw)
                 ctx.runner = runner
 
+                def at_done(_t):
+                    ctx.executing_at_done = set(ctx.executing)
+
+                runner.task.add_done_callback(at_done)
+
                 async def main():
                     await real_asyncio.wait([runner.task])
+                    for _ in range(3):
+                        await real_asyncio.sleep(0)
+                    if ctx.executing:            # left behind by the runner: let them end before the loop closes
+                        for fid in list(ctx.executing):
+                            if ctx.futobj and fid < len(ctx.futobj) and not ctx.futobj[fid].done() and fid not in ctx.releases:
+                                ctx.futobj[fid].cancel()
+                        await ctx.releaser()
+                    if ctx.aux_tasks:
+                        await real_asyncio.gather(*ctx.aux_tasks, return_exceptions=True)
                     for _ in range(3):
                         await real_asyncio.sleep(0)
 
@@ -872,7 +917,8 @@ def case_term(rec: Rec):
 def spec_summary(spec):
     return {k: spec[k] for k in ("kind", "learner", "total", "goal", "ntasks", "ncores", "retries", "raise", "log")
             if k in spec} | {"faults": sorted(k for k, v in (spec.get("faults") or {}).items() if v),
-                             "allow_cancel": spec.get("allow_cancel", False)}
+                             "allow_cancel": spec.get("allow_cancel", False),
+                             "slow_cancel": spec.get("slow_cancel", False)}
 
 
 def replay_doc(rec: Rec):
@@ -903,6 +949,8 @@ def random_spec(rng, faults=True, cancel=True, learner=None, log=None, big=False
             "log": (rng.random() < 0.6) if log is None else log,
             "allow_cancel": cancel and rng.random() < 0.5,
             "shutdown_executor": rng.random() < 0.5, "faults": {}}
+    if kind == "async_coro":
+        spec["slow_cancel"] = rng.random() < 0.5      # coroutine function with asynchronous clean-up on cancellation
     if faults and rng.random() < 0.6:
         p = rng.choice([0.08, 0.2, 0.45])
         npts = total if lk in ("mock", "SequenceLearner") else 3 * total
